@@ -129,11 +129,13 @@ func follow(args []string) {
 	iavl := fs.Int("iavl", 0, "iavl cache size")
 	pruning := fs.String("pruning", "", "pruning")
 	db := fs.String("db", "", "db backend")
+	simulate := fs.Bool("simulate", false, "simulate every transaction before executing its block")
+	restart := fs.Int("restart", 0, "restart the application from its database every N blocks (goleveldb)")
 	fs.Parse(args)
 	if os.Getenv("VERIF_CLOCK_SKEW_SEC") != "" {
 		fmt.Printf("WALLCLOCK %d\n", time.Now().Unix()) // lets the leader see that this replica's clock really is shifted
 	}
-	if err := sim.Follow(*file, sim.AppOpts{MinGasPrice: *mingas, IAVLCache: *iavl, Pruning: *pruning}, *db); err != nil {
+	if err := sim.Follow(*file, sim.AppOpts{MinGasPrice: *mingas, IAVLCache: *iavl, Pruning: *pruning}, *db, *simulate, *restart); err != nil {
 		fmt.Fprintln(os.Stderr, "follow:", err)
 		os.Exit(1)
 	}
